@@ -91,7 +91,7 @@ void __wrap_free(void *p) { if (p) trk_del(p); __real_free(p); }
 /* sockets of the receiver */
 static volatile int g_in_create;              /* wrappers act only while sap_receiver_create runs on the main thread */
 static char g_fp[16] = "none";                /* fail point armed for this create */
-static int g_fds[8], g_nfds;                  /* descriptors made by socket() during create and not closed */
+static int g_fds[256], g_nfds;                 /* descriptors made by socket() during create and not closed */
 static pthread_mutex_t g_fd_mu = PTHREAD_MUTEX_INITIALIZER;
 static int g_bind_fam, g_bind_any, g_bind_port, g_bind_calls;
 static volatile int g_rskt = -1;
@@ -104,7 +104,7 @@ int __wrap_socket(int d, int t, int p) {
 	if (!g_in_create) return __real_socket(d, t, p);
 	if (!strcmp(g_fp, "socket")) { errno = EMFILE; return -1; }
 	int fd = __real_socket(d, t, p);
-	if (fd >= 0) { pthread_mutex_lock(&g_fd_mu); if (g_nfds < 8) g_fds[g_nfds++] = fd; pthread_mutex_unlock(&g_fd_mu); }
+	if (fd >= 0) { pthread_mutex_lock(&g_fd_mu); if (g_nfds < 256) g_fds[g_nfds++] = fd; pthread_mutex_unlock(&g_fd_mu); }
 	return fd;
 }
 int __wrap_close(int fd) {
